@@ -823,8 +823,10 @@ func (p *Program) RestoreTerminal() error {
 	if err := p.initTerminal(); err != nil {
 		return err
 	}
-	if err := p.initCancelReader(false); err != nil {
-		return err
+	if p.input != nil {
+		if err := p.initCancelReader(false); err != nil {
+			return err
+		}
 	}
 	if p.altScreenWasActive {
 		p.renderer.enterAltScreen()
